@@ -106,8 +106,10 @@ PROPS = {
         "theorems": ["single_refused_on_empty_or_larger_pool", "single_cannot_lock_for_other", "multi_cannot_lock_for_other",
                      "lock_into_position_requires_ownership", "first_leg_shape", "reply_shape", "buffer_only_set_by_first_leg",
                      "MantraDex.C14Eq.single_asset_equals_two_step_partial",
-                     "MantraDex.C15Sys.positions_change_only_by_owner_tx_partial", "MantraDex.C15Sys.new_positions_belong_to_signer_partial"],
-        "extra_modules": ["MantraDex.Properties.C14Eq", "MantraDex.Properties.C15Sys"],
+                     "MantraDex.C15Sys.positions_change_only_by_owner_tx_partial", "MantraDex.C15Sys.new_positions_belong_to_signer_partial",
+                     "MantraDex.C14Lock.single_asset_locked_equals_two_step_partial", "MantraDex.C14Lock.single_asset_locked_equals_two_step_fields",
+                     "MantraDex.C14Lock.single_asset_locks_for_sender"],
+        "extra_modules": ["MantraDex.Properties.C14Eq", "MantraDex.Properties.C15Sys", "MantraDex.Properties.C14Lock"],
         "streams": {"pm_hist": (80, 4000), "twin": (60, 3000), "faults": (30, 1500)},
         "what": "single-asset deposits are refused on empty / larger pools; neither path can lock LP for someone other than the sender and an existing "
                 "position must belong to the receiver; first leg = simulate, buffer (expected balances, options), swap exactly floor(a/2) via a "
@@ -115,9 +117,12 @@ PROPS = {
                 "options as a plain self-call; no other handler sets the buffer. MAIN CLAUSE THROUGH THE RUNTIME (C14Eq): an accepted unlocked "
                 "single-asset deposit of c by u ends in the same world as u swapping floor(c/2) and then depositing that half plus the proceeds - same "
                 "pool-manager state (reserves, fees, counters), same farm manager, same supplies, same balances of every account and denom - except "
-                "that the odd unit c mod 2 sits in the pool manager's balance instead of the depositor's (single_asset_equals_two_step_partial)",
-        "assumptions": ["C14Eq is proved for unlocked deposits from well-formed worlds (empty buffer between transactions, valid sender address, supply covering the "
-                        "deposit: three proved-necessary hypotheses, counterexamples in the file); the locked variants and the implementation-level equality are "
+                "that the odd unit c mod 2 sits in the pool manager's balance instead of the depositor's (single_asset_equals_two_step_partial). LOCKED VARIANTS (C14Lock): the same equality "
+                "for deposits that lock the LP in the farm manager (with or without an explicit position identifier, into a new or into the sender's own position): same pool manager, SAME "
+                "farm-manager state (wA.fm = wB.fm: positions, weights, counters), same supplies and balances up to the odd unit (single_asset_locked_equals_two_step_partial); every position "
+                "such a deposit creates or changes belongs to the sender (single_asset_locks_for_sender)",
+        "assumptions": ["C14Eq / C14Lock are proved from well-formed worlds (empty buffer between transactions, valid sender address, supply covering the "
+                        "deposit: three proved-necessary hypotheses, counterexamples in the files); the implementation-level equality is "
                         "validated by the twin-deployment stream (mon_twin_c14); all-or-nothing is C20"],
     },
 
